@@ -115,7 +115,8 @@ class WebSocketDataQueue:
     def feed_eof(self) -> None:
         self._eof = True
         self._release_waiter()
-        self._exception = None  # Break cyclic references
+        # (An error recorded before the connection went away stays recorded:
+        # the reader who comes for it afterwards still has to get it.)
 
     def feed_data(self, data: "WSMessage") -> None:
         size = data.size
